@@ -503,6 +503,59 @@ def selector(F):
                        "%s passes to State::contributions(ideal_gas, residual, ..) %s: Total is no longer ideal gas + residual "
                        "and the single parts are mislabelled" % (
                            b.path, "a residual derivative as the ideal-gas part" if res0 else "no residual derivative as the residual part"))
+    # --- every value a caller of the combinator returns has been through it: a branch that returns one part directly
+    #     (`if i == j { Self::contributions(ideal, residual, c) } else { residual }`) ignores the selector on that path
+    for b in F.bodies:
+        sites = [(bi, t) for bi, t in b.calls() if F.callee_body(t) is not None and F.callee_body(t).path in combinators and len(t["args"]) == 3]
+        if not sites:
+            continue
+        defs = Defs(b)
+        through = {t["dest"]["l"] for bi, t in sites}
+        changed = True
+        while changed:
+            changed = False
+            for bi, si, st in b.stmts():
+                rv = st["rv"]
+                ops = [rv["op"]] if rv["k"] in ("use", "cast", "repeat") else [rv["a"], rv["b"]] if rv["k"] == "binop" else [rv["a"]] if rv["k"] == "unop" \
+                    else rv["ops"] if rv["k"] == "agg" else [{"k": "copy", "place": rv["place"]}] if rv["k"] in ("ref", "discr") else []
+                if any(o.get("k") in ("copy", "move") and o["place"]["l"] in through for o in ops) and st["place"]["l"] not in through:
+                    through.add(st["place"]["l"])
+                    changed = True
+            for bi, t in b.calls():
+                if any(a.get("k") in ("copy", "move") and a["place"]["l"] in through for a in t["args"]) and t["dest"]["l"] not in through:
+                    through.add(t["dest"]["l"])
+                    changed = True
+        # definitions of the return place (and of what is moved into it)
+        ret = {0}
+        work = [0]
+        bad = None
+        while work:
+            l = work.pop()
+            for d in defs.of(l):
+                if d[0] == "call":
+                    if l not in through and not b.blocks[d[1]].get("cleanup"):
+                        bad = d[2]["span"]
+                    continue
+                rv = d[4]
+                if rv["k"] in ("use", "cast") and rv["op"].get("k") in ("copy", "move") and not rv["op"]["place"]["p"]:
+                    src = rv["op"]["place"]["l"]
+                    if src in through:
+                        continue
+                    if src not in ret:
+                        ret.add(src)
+                        work.append(src)
+                    if not defs.of(src):
+                        bad = b.blocks[d[1]]["stmts"][d[2]].get("span") or b.file_line()
+                elif l not in through:
+                    bad = b.blocks[d[1]]["stmts"][d[2]].get("span") or b.file_line()
+        fn_ = b.path.split("::{closure")[0].split("::")[-1]
+        iid = "selector|caller|%s|all-paths" % fn_
+        if bad and (b.lty(0) or {}).get("s", "").startswith(("quantity::Quantity<", "f64")):
+            r.inst(iid, bad, "violation")
+            r.fail(iid, bad, "%s: on one path the returned value has not been through State::contributions — the contribution selector is "
+                             "ignored there (IdealGas / Residual / Total all return the same part)" % b.path)
+        else:
+            r.inst(iid, b.file_line(), "ok")
     r.floor("callers of State::contributions", ncall, 6)
     # --- selector forwarding: a function that takes a contribution selector hands exactly that selector to every inner
     #     call that accepts one (c_p(IdealGas) must not be assembled from Total parts)
